@@ -84,20 +84,42 @@ def fe_worker() -> G.Worker:
     return _fe_worker
 
 
+_vdp_worker: G.Worker | None = None         # compiled kernels, VariableDensityPoisson calls only
+
+
+def vdp_worker() -> G.Worker:
+    global _vdp_worker
+    if _vdp_worker is None:
+        _vdp_worker = G.Worker()
+        atexit.register(_vdp_worker.close)
+    return _vdp_worker
+
+
+def route(spec: dict):
+    """(worker, timeout, bounds_checked) for a real call: `_poisson` calls never share a process with the other
+    generators; those that are known to overrun (max_attempts > 10) or that ask for it run bounds-checked"""
+    if G.risky(spec) or spec.get("frontend"):
+        return fe_worker(), 60.0, True
+    if G.isolated(spec):
+        return vdp_worker(), TIMEOUT, False
+    return worker(), TIMEOUT, False
+
+
 def run(spec: dict) -> dict:
     """one watchdogged real call (cached); after a hang of a generator / entry point the rest of
     its cases are not attempted any more (each hang costs the full timeout)"""
     k = json.dumps(spec, sort_keys=True)
     if k not in _cache:
-        who = spec.get("op") or spec.get("gen")
+        who = str(spec.get("op") or spec.get("gen")) + ("/bounds-checked" if (G.risky(spec) or spec.get("frontend")) else "")
         if _hangs.get(who, 0) >= 1:
             return {"ok": False, "err": "SkippedAfterHang", "msg": f"{who} hung twice before"}
         import time as _t
         _t0 = _t.time()
-        _cache[k] = (fe_worker() if G.risky(spec) else worker()).run(spec, 60.0 if G.risky(spec) else TIMEOUT)
+        w_, to_, checked = route(spec)
+        _cache[k] = w_.run(spec, to_)
         _cache[k]["_dt"] = round(_t.time() - _t0, 2)
         r = _cache[k]
-        if r.get("died") or (G.risky(spec) and r.get("err") == "IndexError" and "out of bounds" in r.get("msg", "")):
+        if r.get("died") or (checked and r.get("err") == "IndexError" and "out of bounds" in r.get("msg", "")):
             r["crash"] = True
             CRASH_LOG.append((spec, r))
         if _cache[k].get("hang"):
@@ -107,6 +129,8 @@ def run(spec: dict) -> dict:
 
 
 def crash_key(spec: dict) -> str:
+    """the recorded (known) defect class is the active-list overrun with max_attempts > 10 only; every other crash —
+    VariableDensityPoisson with default options included — has the plain per-generator key"""
     if spec.get("gen") == "VariableDensityPoisson" and spec.get("extra", {}).get("max_attempts", 10) > 10:
         return OVERRUN_KEY
     return CRASH_KEY.format(gen=spec.get("op") or spec.get("gen"))
@@ -119,7 +143,7 @@ def hang_violations(seen: set):
         key = crash_key(spec)
         if key not in seen:
             seen.add(key)
-            how = ("the process running the call died" if res.get("died") else
+            how = ("the process running the call died (compiled kernels)" if res.get("died") else
                    f"bounds-checked _poisson kernel: {res.get('err')}: {res.get('msg')}")
             yield Violation(key, f"{spec.get('gen')} {spec.get('extra', {})} shape {spec.get('shape')}: {how}",
                             {"op": "crash", "spec": spec, "observed": how})
@@ -649,6 +673,21 @@ def oracle(ctx: Ctx, deep: bool = False):
     run({"gen": "VariableDensityPoisson", "mode": "static", "shape": [12, 12, 2], "acc": 2, "cf": 0.1, "seed": 2,
          "return_acs": False, "extra": {"max_attempts": 30}})
     ctx.count(("poisson-overrun-corpus",), True, bucket="oracle/poisson-kernel/bounds-checked")
+    # default options on clearly non-square k-spaces, both orders, bounds-checked and compiled: must return (or raise
+    # the documented ValueError), never overrun the active lists
+    for shape, mode in (([16, 48, 2], "static"), ([48, 16, 2], "static"), ([24, 8, 2], "static"), ([2, 24, 64, 2], "dynamic")):
+        for fe in (True, False):
+            s = {"gen": "VariableDensityPoisson", "mode": mode, "shape": shape, "acc": 4, "cf": 0.08, "seed": 3, "return_acs": False}
+            if fe:
+                s["frontend"] = True
+            res = run(s)
+            ctx.count(("poisson-nonsquare", tuple(shape), fe), True, bucket="oracle/poisson-kernel/non-square/" +
+                      ("crash" if res.get("crash") else "returned" if res.get("ok") else str(res.get("err"))))
+            if not fe:
+                for key, what in check_geometry(s, res):
+                    if key not in seen:
+                        seen.add(key)
+                        yield Violation(key, what, {"op": "generator", "spec": s})
     # the bisection wrapper driven by a rasteriser whose acceleration crosses the target at a slope that is
     # not a float: the tolerance band is never met, the documented ValueError must be raised (no hang)
     for thr in (16 / 3, 0.1, 7.3):
@@ -696,7 +735,8 @@ def replay(rep: dict) -> bool:
     """Re-run a recorded failing case on the implementation; True when it still fails."""
     if rep.get("op") == "crash":
         s = rep["spec"]
-        r = (fe_worker() if G.risky(s) else worker()).run(s, 60.0)
+        w_, to_, _ = route(s)
+        r = w_.run(s, to_)
         return bool(r.get("died") or (r.get("err") == "IndexError" and "out of bounds" in r.get("msg", "")))
     if rep.get("op") == "hang":
         return bool(worker().run(rep["spec"], TIMEOUT).get("hang"))
